@@ -476,6 +476,8 @@ def family(tier):
     keys = ["a", "b", "_p", 1]
     vals = [0, 1, "s", None, V_C0, V_C1, V_C2, ["C", [["x", 1]]], ["LC", [["C", [["y", 1]]]]], ["LC", [["C", [["y", 1], ["_z", 2]]]]], V_LIST,
             ["C", [["x", None]]], False, ""]
+    # lists that are prefixes of one another (plain and of containers), and the empty ones
+    vals = vals[:8] + [["L", []], ["L", [1]], ["L", [1, 2, 3]], ["LC", []], ["LC", [["C", [["y", 1]]], ["C", [["y", 1]]]]]] + vals[8:]
     if tier == "thorough":
         vals = vals + [V_CC, ["C", [["n", ["C", [["y", 1], ["_h", 0]]]]]], True]
     fam = [["C", []]]
@@ -483,7 +485,7 @@ def family(tier):
         for v in vals:
             fam.append(["C", [[k, v]]])
     for k1, k2 in itertools.permutations(keys, 2):
-        for v1, v2 in itertools.product(vals[:8] if tier == "quick" else vals[:10], repeat=2):
+        for v1, v2 in itertools.product(vals[:8] if tier == "quick" else vals[:15], repeat=2):
             fam.append(["C", [[k1, v1], [k2, v2]]])
     return fam
 
